@@ -687,3 +687,91 @@ contract(Contract(
     ensures={"exclude_replaces_defaults_even_when_empty": Clause(_eff_exclude)},
     canaries=[("self.exclude if self.exclude is not None else list(DEFAULT_EXCLUDES)", "self.exclude or list(DEFAULT_EXCLUDES)", None, ["post["])],
 ))
+
+
+# --------------------------------------------------------------------------- _get_gitignore / _get_tool_ignore (the caches)
+from vfcore.values import VOptRefMap  # noqa: E402
+
+
+def _cache_setup(field):
+    def setup(ex):
+        s = ex.envs[0]["self"]
+        s.fields[field] = VOptRefMap(z3.Const("cache!present", z3.ArraySort(Ref, Bool)), z3.Const("cache!isnone", z3.ArraySort(Ref, Bool)),
+                                      z3.Const("cache!val", z3.ArraySort(Ref, Ref)), "PathSpec")
+        s.fields["_config"] = VObj("FileResolverConfig", {"tool_name": ex.mk("str", "tool_name")})
+        ex.cache0 = s.fields[field].copy()
+    return setup
+
+
+def _cache_post(field, key_of, loader):
+    def post(ex):
+        """a hit returns what the cache holds for exactly this key and leaves the cache alone; a miss loads for exactly this
+        directory, stores the result under exactly this key (and nothing else) and returns it"""
+        env = ex.envs[0]
+        c0, c1 = ex.cache0, env["self"].fields[field]
+        k = key_of(ex)
+        res = env["result"]
+        hit = z3.Select(c0.present, k)
+        rn = res.is_none if isinstance(res, VOpt) else z3.BoolVal(res is None)
+        rv = ex.z(res.val) if isinstance(res, VOpt) else (z3.Const("nil!ref", Ref) if res is None else ex.z(res))
+        ln, lv = loader(ex)
+        on_hit = z3.And(rn == z3.Select(c0.isnone, k), z3.Implies(z3.Not(rn), rv == z3.Select(c0.val, k)),
+                        c1.present == c0.present, c1.isnone == c0.isnone, c1.val == c0.val)
+        on_miss = z3.And(rn == ln, z3.Implies(z3.Not(rn), rv == lv),
+                         c1.present == z3.Store(c0.present, k, z3.BoolVal(True)),
+                         z3.Select(c1.isnone, k) == ln, z3.Implies(z3.Not(ln), z3.Select(c1.val, k) == lv))
+        return z3.And(z3.Implies(hit, on_hit), z3.Implies(z3.Not(hit), on_miss))
+    return post
+
+
+def _gi_loader(ex):
+    d = ex.z(ex.old_envs[0]["directory"])
+    return ex.th.uf("call?_load_gitignore", Ref, Bool)(d), ex.th.uf("call_load_gitignore", Ref, Ref)(d)
+
+
+contract(Contract(
+    target=M + ":FileResolver._get_gitignore",
+    props=["C18"],
+    params={"directory": "ref:Path"},
+    self_cls="FileResolver",
+    setup=_cache_setup("_gitignore_cache"),
+    calls={"load_gitignore": Callee("uf", ret="opt[ref:PathSpec]", sig=["directory"]),
+           "Path.parent": Callee("attr", ret="ref:Path"), "Path.resolve": Callee("uf", ret="ref:Path", sig=["self"])},
+    ensures={"cached_per_directory": Clause(_cache_post("_gitignore_cache", lambda ex: ex.z(ex.old_envs[0]["directory"]), _gi_loader))},
+    canaries=[
+        ("            self._gitignore_cache[directory] = load_gitignore(directory)", "            self._gitignore_cache[directory] = load_gitignore(directory.parent)", None, ["post[cached_per_directory"]),
+        ("        if directory not in self._gitignore_cache:", "        if True:", None, ["post[cached_per_directory"]),
+    ],
+))
+
+
+def _ti_loader(ex):
+    s = ex.envs[0]["self"]
+    tn = ex.z(s.fields["_config"].fields["tool_name"])
+    d = ex.z(ex.old_envs[0]["start_dir"])
+    return (ex.th.uf("call?_load_tool_ignore", ex.th.Str, Ref, Bool)(tn, d), ex.th.uf("call_load_tool_ignore", ex.th.Str, Ref, Ref)(tn, d))
+
+
+contract(Contract(
+    target=M + ":FileResolver._get_tool_ignore",
+    props=["C17"],
+    params={"start_dir": "ref:Path"},
+    self_cls="FileResolver",
+    setup=_cache_setup("_tool_ignore_cache"),
+    types={"resolved": "ref:Path"},
+    calls={"load_tool_ignore": Callee("uf", ret="opt[ref:PathSpec]", sig=["tool_name", "start_dir"]),
+           "Path.resolve": Callee("uf", ret="ref:Path", sig=["self"]),
+           # (not used by the current body; modelled so that a body that looks at other directories is judged, not rejected)
+           "Path.parent": Callee("attr", ret="ref:Path"), "Path.parents": Callee("attr", ret="list[ref:Path]")},
+    ensures={
+        # the ignore file of a start directory is looked up for THAT directory (its resolved path is the cache key): an entry
+        # made for another directory -- an ancestor, a sibling -- is never reused for it
+        "cached_per_resolved_start_directory": Clause(_cache_post(
+            "_tool_ignore_cache", lambda ex: ex.th.uf("call_Path_resolve", Ref, Ref)(ex.z(ex.old_envs[0]["start_dir"])), _ti_loader)),
+    },
+    canaries=[
+        ("            self._tool_ignore_cache[resolved] = load_tool_ignore(self._config.tool_name, start_dir)",
+         "            self._tool_ignore_cache[resolved] = load_tool_ignore(self._config.tool_name, start_dir.parent)", None, ["post[cached_per_resolved"]),
+        ("        return self._tool_ignore_cache[resolved]", "        return self._tool_ignore_cache[start_dir]", None, ["post[cached_per_resolved", "noraise"]),
+    ],
+))
